@@ -19,6 +19,12 @@ CHECKS = {
  "C20": (MC, "vmc", "exhaustive sweep of calendar days and edge products against a days-from-civil model",
    "Every day of the years -9998..9998 (thorough; quick: 1582..2400 plus marked days of every year) at two times of day through gmtime, mktime, todate, fromdate and five complete strftime/strptime formats against an independent proleptic Gregorian model; range limits, 2^31..2^64 neighbours, non-finite and non-numeric inputs must be errors; fractional epochs to the microsecond; the full product of edge field values of broken-down arrays; RFC 3339 texts with offsets and fractional digits.",
    "trusted: the calendar model (era arithmetic); complete-format round trips demanded for 4-digit years; TZ=UTC", "DESIGN.md §2 C20"),
+ "C02": (MC, "vmc", "exhaustive path expressions x input trees x update filters against the reference evaluator's path and update modes; in-language laws",
+   "All path expressions to depth 2 (thorough: depth 3 with one atomic side) over 30 atoms, 8 wrappers (first/last/limit/skip/definitions/closure and variable arguments/effect marker) and 4 combinators are run as path(p), path_value(p), p |= u (5 update filters), = += -= //= with multi-valued, empty and failing right-hand sides and del(p) on every input tree of depth <= 2, and compared with the reference evaluator; getpath(path(p)) against p (with the manual's rule for //); 14 derived-filter laws on every input.",
+   "trusted: reference evaluator (path-based and pathless tables of advanced.dj); model values above 600 nodes are out of scope (counted as undecided)", "DESIGN.md §2 C02"),
+ "C11": (MC, "vmc", "exhaustive streams x counts x laws (manual's equations evaluated in-language) plus the reference evaluator as third opinion",
+   "Every stream of length <= 3 (thorough 4) over {1, 2, error} in three renderings x counts around 0 and the stream length plus 2^63, 2^70 and big-integer representations x 31 stream laws; reduce/foreach against the nested-pipe expansion generated for each concrete stream and seven (init, update, projection) triples; 21 generator laws over all argument triples (numbers, strings, arrays, null); every combinator also runs on the reference evaluator.",
+   "trusted: each law is the manual's defining expansion evaluated by the same binary; error position and payload are captured as data", "DESIGN.md §2 C11"),
 }
 PENDING = {}
 def main():
